@@ -363,6 +363,8 @@ def run(chk):
     c14_boot.nilkey(chk)
     _noassert_rule(chk, prog)
     _seenpair_rule(chk, prog)
+    _narrowcheck_rule(chk, prog)
+    _viewcopy_rule(chk, prog)
 
 
 UNBOUNDED_CSTR = ("strchr", "strrchr", "strlen", "strcmp", "strstr", "strcpy", "strcat", "strdup", "strpbrk", "strspn", "strcspn",
@@ -485,3 +487,110 @@ def _seenpair_rule(chk, prog):
         else:
             chk.ok(rule, "janet_pretty_one: this return leaves nothing behind in S->seen")
     chk.floor(rule, 1, n)
+
+
+NARROW_UNITS = ("buffer.c", "string.c", "array.c", "tuple.c", "capi.c")
+
+
+def _narrowcheck_rule(chk, prog):
+    """An index that arrives as a double is turned into a 64-bit integer so that it can be tested against the 32-bit
+    length without losing anything.  The conversion to int32_t belongs after that test: a value narrowed first wraps
+    modulo 2^32, and a huge index whose low bits happen to be in range passes the check and touches an unrelated (or,
+    wrapped negative, an out-of-bounds) byte."""
+    rule = "C17-NARROWCHECK"
+    chk.rule(rule, "a 64-bit index is not compared with a length after it was narrowed to 32 bits: no int32_t local initialised from an int64_t expression appears in a comparison")
+    W = ("int64_t", "long", "long long", "uint64_t", "unsigned long", "size_t")
+    n = 0
+    for fn in prog.all_funcs():
+        if fn.tu.name not in NARROW_UNITS:
+            continue
+        for d in fn.nodes:
+            if d.k != "vardecl" or not d.kids or (d.t or "") not in ("int32_t", "int"):
+                continue
+            init = d.kids[0]
+            while init.k == "paren" and init.kids:
+                init = init.kids[0]
+            src = init.kids[0] if init.k == "cast" and init.kids else init
+            while src.k == "paren" and src.kids:
+                src = src.kids[0]
+            if (src.t or "").replace("const ", "") not in W or src.k in ("int", "lit") or src.v is not None:
+                continue
+            if not any(y.k == "ref" and (y.t or "").replace("const ", "") in ("int64_t", "long", "long long") for y in src.walk()):
+                continue
+            n += 1
+            chk.instance(rule)
+            chk.analysed(fn)
+            cmpn = [x for x in fn.nodes if x.k == "bin" and x.op in ("<", "<=", ">", ">=") and
+                    any(is_ref(strip_casts(k)) and strip_casts(k).name == d.name for k in x.kids) and
+                    any(y.k == "mem" and y.field in ("count", "length", "len", "capacity") for k in x.kids for y in k.walk())]
+            # harmless when the wide source was itself given an upper bound before the narrowing
+            wide = set(y.name for y in src.walk() if y.k == "ref" and (y.t or "").replace("const ", "") in ("int64_t", "long", "long long"))
+            bounded = any(x.k == "bin" and x.op in (">", ">=", "<", "<=") and x.ln < d.ln and
+                          any(is_ref(strip_casts(k)) and strip_casts(k).name in wide for k in x.kids) for x in fn.nodes)
+            if cmpn and bounded:
+                chk.ok(rule, "%s: `%s` is narrowed after `%s` was bounded" % (fn.name, d.name, "/".join(sorted(wide))))
+            elif cmpn:
+                chk.violation(rule, fn.tu.name, fn.name, d.name, cmpn[0].loc,
+                              "`%s` is `%s` narrowed to 32 bits (%s) and it is the narrowed value that is compared with the length at %s: an "
+                              "index of 2^35 or more wraps modulo 2^32, passes the check when its low bits are small and addresses an unrelated "
+                              "byte - or one in front of the storage when it wraps negative" % (d.name, src.text()[:30], d.loc, cmpn[0].loc))
+            else:
+                chk.ok(rule, "%s: `%s` is narrowed after its range was settled" % (fn.name, d.name))
+    if n == 0:
+        chk.note("%s: no 32-bit local is initialised from a 64-bit index in %s at present" % (rule, ", ".join(NARROW_UNITS)))
+    chk.floor(rule, 0, n)
+
+
+def _viewcopy_rule(chk, prog):
+    """string/replace and replace-all call back into Janet (the substitution function) between matches while they hold
+    raw pointers into their pattern and text arguments.  A buffer argument can be resized by that code, so each one is
+    replaced by a private string copy first - each: the pattern as much as the text.  (The search state also holds a
+    failure table built from the pattern's bytes.)"""
+    rule = "C17-VIEWCOPY"
+    chk.rule(rule, "replacesetup takes a byte view only of arguments that were replaced by a private copy when the substitution is a function")
+    fn = next((f for f in prog.all_funcs() if f.name == "replacesetup" and f.tu.name == "string.c"), None)
+    if fn is None:
+        raise AnalysisBroken("string.c: replacesetup not found")
+    chk.analysed(fn)
+    viewed = set()
+    for c in fn.calls("janet_getbytes"):
+        v = strip_casts(c.args[1]).v if len(c.args) > 1 else None
+        if v is not None:
+            viewed.add(v)
+    copied = set()
+    guard = [x for x in fn.nodes if x.k == "if" and any(y.k == "ref" and y.name in ("JANET_FUNCTION", "JANET_CFUNCTION") for y in x.kids[0].walk())]
+    if not guard:
+        raise AnalysisBroken("replacesetup: the test for a function substitution was not recognised")
+    body = guard[0].kids[1]
+    for x in body.walk():
+        if x.k == "asg" and x.op == "=" and x.kids[0].k == "sub" and is_ref(strip_casts(x.kids[0].kids[0]), "argv"):
+            idx = strip_casts(x.kids[0].kids[1])
+            if idx.v is not None:
+                copied.add(idx.v)
+            elif is_ref(idx):
+                # a loop over indices: enumerate it
+                lp = x.parent
+                while lp is not None and lp.k != "for":
+                    lp = lp.parent
+                if lp is not None:
+                    init = [y for y in lp.kids[0].walk() if y.k == "vardecl" and y.name == idx.name and y.kids] if lp.kids[0] is not None else []
+                    cond = strip_casts(lp.kids[1]) if lp.kids[1] is not None else None
+                    inc = strip_casts(lp.kids[2]) if lp.kids[2] is not None else None
+                    if init and cond is not None and cond.k == "bin" and cond.op in ("<", "<=") and strip_casts(cond.kids[1]).v is not None and inc is not None:
+                        step = strip_casts(inc.kids[1]).v if inc.k == "asg" and inc.op == "+=" else (1 if inc.k == "un" else None)
+                        i0 = strip_casts(init[0].kids[0]).v
+                        hi = strip_casts(cond.kids[1]).v + (1 if cond.op == "<=" else 0)
+                        if step and i0 is not None:
+                            copied.update(range(i0, hi, step))
+    if not viewed:
+        raise AnalysisBroken("replacesetup: no byte views taken with janet_getbytes(argv, <constant>)")
+    for v in sorted(viewed):
+        chk.instance(rule)
+        if v in copied:
+            chk.ok(rule, "replacesetup: argv[%d] is copied before its view is taken" % v)
+        else:
+            chk.violation(rule, "string.c", "replacesetup", "argv[%d]" % v, fn.loc,
+                          "replacesetup takes a byte view of argv[%d] that is kept while the substitution function runs, but only argv[%s] are "
+                          "replaced by private copies: a function that changes or resizes that buffer makes the rest of the search look for the "
+                          "wrong bytes or read freed memory" % (v, ", ".join(str(i) for i in sorted(copied)) or "none"))
+    chk.floor(rule, 2)
